@@ -319,3 +319,5 @@ def run(ctx):
     finally:
         # numeric kernels this property's formulas rest on, pinned as canonical expression trees
         check_kernels(ctx, "C06.K", ['accrued-per-period', 'payment-for-period'])
+        from .kernels import check_leaves
+        check_leaves(ctx, "C06.K", ['group.program_fees_enabled'])
